@@ -64,6 +64,24 @@ CHECKS = {
     "C18": ("mc-store", MC, "explicit-state BFS (E2) over role operations on the real Store against a set-of-grants reference",
             "All sequences of enable/disable/grant/revoke/cluster-restart/update-restart-slot over 3 addresses x 3 roles to the stated depth, from empty and capacity-edge start states; has_role/has_admin_role answers and bytes-unchanged-on-failure are compared with the reference in every state.",
             "bounds: depth, 3 users, 3 roles", "§5 C18"),
+    "C26": ("mc-utils", E1, "exhaustive product enumeration (E1) of price/decimals/token-decimals/precision against exact big-integer truncation",
+            "Decimal::try_from_price / to_unit_price / with_unit_price / maximum, find_divisor_decimals / convert_to_u128_storage and the feed/pyth wrappers are executed on the full product of boundary and dense alphabets (all decimal settings 0..22 and beyond, prices at every power of ten and around the u32 limit at every scale); Ok values must equal the exact truncated value, errors are legitimate only when the exact value is unrepresentable.",
+            "alphabets only", "§5 C26"),
+    "C27": ("mc-utils", E1, "exhaustive product enumeration (E1) of status x policy x flags x timestamps x diffs against the statement evaluated in i128",
+            "PriceFeedPrice::is_market_open is executed for every defined status and policy byte (thorough: all 256 x 256), every price-flag combination and boundary alphabets of current/report timestamps (i64 limits), last-update differences (seconds/nanoseconds) and timeouts (u32 limits).",
+            "alphabets only", "§5 C27"),
+    "C28": ("mc-utils", E1, "exhaustive enumeration (E1) of structure-aware bounded byte strings and boundary field values against ABI slice semantics and exact scaling",
+            "decode_full_report on crafted offset/length words (with and without non-zero high bytes) x tail lengths and all truncations; decode on all 65536 schema ids x boundary lengths x fills; decode + from_chainlink_report on boundary bid/price/ask triples for every supported schema; decode_compressed_full_report on every byte string of length <= 2, truncations and byte flips of valid payloads; no panic, accepted blob equals the ABI slice, conversion preserves order and one common power of ten.",
+            "field-level ABI decoding belongs to the external schema crate (exercised for panics only)", "§5 C28"),
+    "C34": ("mc-utils", MC, "explicit-state BFS (E2) over map operations on instantiations of the real fixed_map! macro against a BTreeMap",
+            "Every sequence of insert / insert-new / remove / get_mut-write / clear over capacity+2 adversarially ordered keys, small capacities to a fixpoint from the empty map and capacities 32/64/96/512 from prefilled capacity-edge states; all observers compared after every step; failed operations leave the bytes unchanged; panics are violations.",
+            "macro instantiated in the checker crate with the programs' capacities", "§5 C34"),
+    "C35": ("mc-store", E1, "exhaustive enumeration (E1) of structured strings through the helpers and every accepting constructor",
+            "All prefix+fill+suffix strings over {a, NUL, 2-byte, 4-byte characters} of byte length 0..capacity+2 and a NUL at every position, through fixed_str_to_bytes/bytes_to_fixed_str (32, 64) and Store::init, enable_role->grant/has_role/revoke/disable_role, Market::init, token config and the real timelock initialize_executor instruction; accepted => read back unchanged and usable.",
+            "string alphabet of four characters", "§5 C35"),
+    "C36": ("mc-store", MC, "explicit-state BFS (E3) over real timelock/store instructions in the in-process runtime against a reference protocol",
+            "All interleavings to the stated depth of create (valid/invalid shapes), approve, cancel, execute, increase_delay by entitled and non-entitled signers, role revocation/re-grant and clock advances around the delay, executed through gmsol_timelock::entry with CPI role checks into gmsol_store::entry; outcome of every instruction compared with the protocol; executed instruction compared bit for bit with the buffered one via a recording probe program.",
+            "svm-lite runtime trusted; timelock config account fabricated", "§5 C36"),
 }
 
 NOT_YET = "no check built yet in this round (planned in DESIGN.md); not claimed"
